@@ -469,7 +469,7 @@ Definition arbitrary_of (vals : amap) : amap :=
 Definition register_post : M unit :=
   vals <- read_values ;;
   if negb (valid [pid_rule; password_rule] pw_pairs vals) then
-    respond (bs "register") [(bs "errors", DOther)]
+    respond (bs "register") [(bs "errors", DOther); (bs "preserve", DOther)]
   else
   let pid := aget pid_field vals in
   let password := aget f_password vals in
@@ -480,7 +480,7 @@ Definition register_post : M unit :=
                       <| u_last := zero_time |> <| u_locked := zero_time |> <| u_rexp := zero_time |> <| u_oexp := zero_time |> in
   try (st_create O u) (fun r =>
     match r with
-    | Err ErrUserFound => log [pid] ;;; respond (bs "register") [(bs "errors", DOther)]
+    | Err ErrUserFound => log [pid] ;;; respond (bs "register") [(bs "errors", DOther); (bs "preserve", DOther)]
     | Err e => fail e
     | Panic => panic
     | Ok _ =>
@@ -771,7 +771,10 @@ Definition email_verify_end (k : tfkind) : M unit :=
 Definition email_verify_wrap (k : tfkind) : M bool :=
   if negb (c_email_auth cfg) then ret true
   else if beqb (aget k_2fa_authed sess) v_true then ret true
-  else try (redirect (ro_fail (c_mount cfg ++ bs "/2fa/" ++ kind_name k ++ bs "/email/verify")))
+  else try (redirect (ro_fail (
+             (* path.Join(Mount, "2fa", kind, "email/verify"): relative when Mount is empty *)
+             if bempty (c_mount cfg) then bs "2fa/" ++ kind_name k ++ bs "/email/verify"
+             else c_mount cfg ++ bs "/2fa/" ++ kind_name k ++ bs "/email/verify")))
            (fun r => match r with Panic => panic | Ok _ => ret tt | Err _ => log [] end) ;;; ret false.
 
 (* ---- totp2fa (totp.go) --------------------------------------------------------------------- *)
